@@ -58,15 +58,41 @@ pub fn markers_in(commit: &CommitNode<Elements>) -> Vec<(u32, Cmr)> {
     found
 }
 
+/// Markers of a debug build: the hidden CMRs of `assertl` nodes that `debug_symbols()` knows (whatever formula the
+/// library derives them from) plus those that follow the formula of the pinned tree (so that an embedded marker
+/// WITHOUT an entry is still seen). The number is the call id where the formula gives one, else 100000 + position.
+pub fn markers_of(commit: &CommitNode<Elements>, symbols: &simfony::debug::DebugSymbols) -> Vec<(u32, Cmr)> {
+    let table: HashMap<Cmr, u32> = (0..2048u32).map(|i| (marker_cmr(i), i)).collect();
+    let mut found: Vec<(u32, Cmr)> = vec![];
+    let mut pos = 0u32;
+    for item in commit.post_order_iter::<InternalSharing>() {
+        if let Inner::AssertL(_, cmr) = item.node.inner() {
+            let num = match table.get(cmr) {
+                Some(i) => Some(*i),
+                None if symbols.get(cmr).is_some() => Some(100_000 + pos),
+                None => None,
+            };
+            if let Some(i) = num {
+                if !found.iter().any(|(_, c)| c == cmr) {
+                    found.push((i, *cmr));
+                    pos += 1;
+                }
+            }
+        }
+    }
+    found.sort();
+    found
+}
+
 /// `sites`: predicted `[{"kind","text":tokens,"ty","samples":[values]}]`
 pub fn check(compiled: &CompiledProgram, commit: &CommitNode<Elements>, sites: &[J], issues: &mut Vec<J>) -> R<usize> {
-    let markers = markers_in(commit);
+    let symbols = compiled.debug_symbols();
+    let markers = markers_of(commit, &symbols);
     let mut predicted: Vec<(String, String, &J)> = vec![];
     for s in sites {
         let text = strip_ws(&join_tokens(&s["text"], "")?);
         predicted.push((s["kind"].as_str().unwrap_or("").to_string(), text, s));
     }
-    let symbols = compiled.debug_symbols();
     // resolved markers: (number, kind, normalised text, tracked call)
     let mut resolved = vec![];
     for (i, cmr) in &markers {
